@@ -84,11 +84,11 @@ theorem suffixes_nonempty (name : List Char) : ∀ s ∈ suffixes name, s ≠ []
 
 theorem exportAt_refused (fs : FS) (p : Path) (k : Kind) (ue : Option (List Char)) (c : Nat)
     (h : (fs p).isSome = true) : exportAt fs p k ue false c = (.overwriteError, fs) := by
-  simp [exportAt, h]
+  simp [exportAt, exportAtW, h]
 
 theorem exportAt_fs_of_not_written (fs : FS) (p : Path) (k : Kind) (ue : Option (List Char)) (ow : Bool) (c : Nat)
     (h : (exportAt fs p k ue ow c).1 ≠ .written) : (exportAt fs p k ue ow c).2 = fs := by
-  unfold exportAt at h ⊢
+  unfold exportAt exportAtW at h ⊢
   split
   · rfl
   · split
@@ -100,7 +100,7 @@ theorem exportAt_fs_of_not_written (fs : FS) (p : Path) (k : Kind) (ue : Option 
 
 theorem exportAt_frame (fs : FS) (p q : Path) (k : Kind) (ue : Option (List Char)) (ow : Bool) (c : Nat)
     (hq : q ≠ p) : (exportAt fs p k ue ow c).2 q = fs q := by
-  unfold exportAt
+  unfold exportAt exportAtW
   split
   · rfl
   · split
@@ -111,7 +111,7 @@ theorem exportAt_frame (fs : FS) (p q : Path) (k : Kind) (ue : Option (List Char
 
 theorem exportAt_overwriteError_iff (fs : FS) (p : Path) (k : Kind) (ue : Option (List Char)) (ow : Bool) (c : Nat) :
     (exportAt fs p k ue ow c).1 = .overwriteError ↔ ((fs p).isSome = true ∧ ow = false) := by
-  unfold exportAt
+  unfold exportAt exportAtW
   split
   · rename_i h; simp [h]
   · rename_i h
